@@ -74,6 +74,8 @@ def gen(rng, tier):
             'dup_boundary': rng.random() < 0.4,
             # the recorded columns are tuples and the time column a range (read-only sequences) instead of lists
             'tuple_columns': rng.random() < 0.2,
+            # a recorded dense signal with a repeated time stamp ([t, old], [t, new]); the library may reject it
+            'dup_stamp': [v for v in vars_ if rng.random() < 0.6] if rng.random() < 0.12 else [],
             # recorded signals that end with an explicit "holds forever" sample [inf, last value] (dense offline objects)
             'inf_tail': [v for v in vars_ if rng.random() < 0.6] if rng.random() < 0.2 else [],
             'hashseeds': [1, 2, 31337] if rng.random() < 0.025 else []}
@@ -111,6 +113,17 @@ class Host(object):
         self.data, self.signals = data, signals
         self.dense = self.mo['kind'].startswith('ct')
         self.spec = M.build(_desc(sc, self.mo))
+        if self.dense and self.mo['mode'] == 'off' and sc.get('dup_stamp'):
+            sig2 = {}
+            for v in signals:
+                s_ = list(signals[v])
+                if v in sc['dup_stamp'] and len(s_) >= 2:
+                    i = len(s_) // 2
+                    s_ = s_[:i + 1] + [[s_[i][0], s_[i][1] + 1.0]] + s_[i + 1:]
+                sig2[v] = s_
+            self.signals = signals = sig2
+            self.questionable = True
+            r.faults['signal_with_repeated_time_stamp'] += 1
         if self.dense and self.mo['mode'] == 'off' and sc.get('inf_tail'):
             self.signals = dict((v, (signals[v] + [[float('inf'), signals[v][-1][1]]]) if v in sc['inf_tail'] else signals[v])
                                 for v in signals)
@@ -128,7 +141,7 @@ class Host(object):
         try:
             out = fn(*args)
         except M.ApiCrash:
-            if not (self.sc.get('tuple_columns') and not self.dense):
+            if not ((self.sc.get('tuple_columns') and not self.dense) or getattr(self, 'questionable', False)):
                 raise
             # only lists are documented as columns: a read-only sequence may be rejected - but never modified or replaced
             out = None
@@ -292,6 +305,10 @@ def shrinks(sc):
     if sc.get('tuple_columns'):
         c = copy.deepcopy(sc)
         c['tuple_columns'] = False
+        yield c
+    if sc.get('dup_stamp'):
+        c = copy.deepcopy(sc)
+        c['dup_stamp'] = []
         yield c
     if k > 1:
         for j in range(k):
